@@ -836,6 +836,27 @@ class Path:
         return "[%s] => %s (%s)" % (g, show(self.ret) if self.ret is not None else "-", self.end)
 
 
+def _stable_expr(v, frozen, depth=0):
+    """An expression over the arguments that cannot change during the function: fields that are never written after
+    construction, their lengths, constants, and +/- of those."""
+    if not isinstance(v, tuple) or depth > 8:
+        return False
+    k = v[0]
+    if k == "arg":
+        return True
+    if k == "const":
+        return True
+    if k in ("ref", "deref") and len(v) >= 2:
+        return _stable_expr(v[1], frozen, depth + 1)
+    if k == "field":
+        return v[2] in frozen and _stable_expr(v[1], frozen, depth + 1)
+    if k == "len":
+        return _stable_expr(v[1], frozen, depth + 1)
+    if k in ("add", "sub", "mul", "satsub"):
+        return all(_stable_expr(x, frozen, depth + 1) for x in v[1:])
+    return False
+
+
 def _stable_arg(v):
     while isinstance(v, tuple) and v and v[0] in ("ref", "deref") and len(v) >= 2:
         v = v[1]
@@ -885,7 +906,7 @@ class Walker:
                         v = se.local_value(l)
                     except Exception:
                         continue
-                    if _stable_arg(v):
+                    if _stable_arg(v) or (self.facts is not None and _stable_expr(v, self.facts.frozen_fields())):
                         env[l] = v
         env.update(self.init_env)
         st = {"env": env, "heap": {}, "known": {}, "epoch": 0, "subst": {}}
